@@ -3,6 +3,8 @@ package main
 import (
 	"container/heap"
 	"fmt"
+	"math"
+	"math/big"
 	"strconv"
 	"strings"
 	"time"
@@ -47,19 +49,46 @@ func parseDesc(s string) bool {
 }
 
 // multiset is the abstract model of all three heaps: the live (value, priority) pairs by handle.
-type item struct{ v, p int }
+// okey is the key the independent oracle orders by: an integer priority, or (timed queue) the
+// time.Time itself compared with Time.Compare -- never through UnixNano, which wraps outside 1678..2262.
+type okey struct {
+	n     int
+	t     time.Time
+	timed bool
+	label string
+}
+
+func ik(n int) okey { return okey{n: n, label: strconv.Itoa(n)} }
+
+func (k okey) String() string { return k.label }
+
+type item struct {
+	v int
+	p okey
+}
+
+func (it item) String() string { return fmt.Sprintf("%d:%s", it.v, it.p.label) }
 
 type multiset struct {
 	desc bool
 	live map[int]item // handle -> item
 }
 
-func (m *multiset) before(a, b int) bool { // a sorts strictly before b
+func (m *multiset) before(a, b okey) bool { // a sorts strictly before b
+	c := 0
+	switch {
+	case a.timed:
+		c = a.t.Compare(b.t)
+	case a.n < b.n:
+		c = -1
+	case a.n > b.n:
+		c = 1
+	}
 	if m.desc {
-		return a > b
+		return c > 0
 	}
 
-	return a < b
+	return c < 0
 }
 
 // findBest finds a live item with value v whose priority is best (no live item sorts before it).
@@ -129,7 +158,7 @@ func newGH(f []string) world {
 // invariants checks heap order and "handle index = position" on the real array.
 func (w *ghW) invariants(r *hx.Run, op, line string) {
 	for i := 1; i < w.h.Len(); i++ {
-		if w.ms.before(w.h[i].Key.p, w.h[(i-1)/2].Key.p) {
+		if w.ms.before(ik(w.h[i].Key.p), ik(w.h[(i-1)/2].Key.p)) {
 			fail(r, "gh", op, "heap-order", fmt.Sprintf("after %s: element %d sorts before its parent %d", line, i, (i-1)/2))
 		}
 	}
@@ -158,7 +187,7 @@ func (w *ghW) exec(r *hx.Run, f []string) (string, string) {
 		heap.Push(&w.h, e)
 		id := len(w.elems)
 		w.elems = append(w.elems, e)
-		w.ms.live[id] = item{v, p}
+		w.ms.live[id] = item{v, ik(p)}
 
 		return line, strconv.Itoa(id)
 	case "pop":
@@ -169,7 +198,7 @@ func (w *ghW) exec(r *hx.Run, f []string) (string, string) {
 		if w.removedInner {
 			w.popsAfter++
 		}
-		if it, ok := w.ms.takeBest(e.Value); !ok || it.p != e.Key.p {
+		if it, ok := w.ms.takeBest(e.Value); !ok || it.p.n != e.Key.p {
 			fail(r, "gh", "pop", "pop-minimum", fmt.Sprintf("Pop returned %d:%d which is not a best live element of %v", e.Value, e.Key.p, w.ms.live))
 		}
 
@@ -251,12 +280,12 @@ func genGH(rng *hx.Rng, n int) []string {
 
 // pqAPI is what both queues offer to the interpreter.
 // push and popUntil also return the key the independent oracle orders by (the integer priority;
-// for the timed queue the instant in Unix nanoseconds, whatever its representation).
+// for the timed queue the time.Time value itself, ordered by Time.Compare).
 type pqAPI interface {
-	push(v, p, rep int) (func(), int)
+	push(v int, p string, rep int) (func(), okey)
 	peek() (int, bool)
 	pop() (int, bool)
-	popUntil(p, rep int) ([]int, int)
+	popUntil(p string, rep int) ([]int, okey)
 	popAll() []int
 	size() int
 	isEmpty() bool
@@ -267,13 +296,17 @@ type realPQ struct {
 	desc bool
 }
 
-func (q realPQ) push(v, p, _ int) (func(), int) { return q.q.Push(v, prio{p, q.desc}), p }
-func (q realPQ) peek() (int, bool)              { return q.q.Peek() }
-func (q realPQ) pop() (int, bool)               { return q.q.Pop() }
-func (q realPQ) popUntil(p, _ int) ([]int, int) { return q.q.PopUntil(prio{p, q.desc}), p }
-func (q realPQ) popAll() []int                  { return q.q.PopAll() }
-func (q realPQ) size() int                      { return q.q.Size() }
-func (q realPQ) isEmpty() bool                  { return q.q.IsEmpty() }
+func (q realPQ) push(v int, p string, _ int) (func(), okey) {
+	return q.q.Push(v, prio{atoi(p), q.desc}), ik(atoi(p))
+}
+func (q realPQ) peek() (int, bool) { return q.q.Peek() }
+func (q realPQ) pop() (int, bool)  { return q.q.Pop() }
+func (q realPQ) popUntil(p string, _ int) ([]int, okey) {
+	return q.q.PopUntil(prio{atoi(p), q.desc}), ik(atoi(p))
+}
+func (q realPQ) popAll() []int { return q.q.PopAll() }
+func (q realPQ) size() int     { return q.q.Size() }
+func (q realPQ) isEmpty() bool { return q.q.IsEmpty() }
 
 var epoch = time.Unix(1700000000, 0)
 
@@ -283,12 +316,38 @@ var monoBase = time.Now()
 
 const timeReps = 6
 
-// at builds the instant number p (epoch + p * 1.000000001 s) in representation rep: UTC, Local, a
-// fixed +1h zone, a time.Unix(sec, nsec) round trip, with a monotonic reading, and that one stripped.
-// All representations of one p are the same instant (same UnixNano) but different time.Time structs.
-func at(p, rep int) time.Time {
-	t := epoch.Add(time.Duration(p) * (time.Second + 1))
-	switch rep % timeReps {
+var billion = big.NewInt(1000000000)
+
+// instantString is the model priority of t: the exact integer Unix()*10^9 + Nanosecond() (no
+// overflow: computed in big integers, so it is defined for every time.Time).
+func instantString(t time.Time) string {
+	n := new(big.Int).Mul(big.NewInt(t.Unix()), billion)
+
+	return n.Add(n, big.NewInt(int64(t.Nanosecond()))).String()
+}
+
+// at builds the instant with model priority p (= seconds*10^9 + nanoseconds since the Unix epoch, any
+// size) in representation rep: UTC, Local, a fixed +1h zone, a time.Unix(sec, nsec) round trip, with
+// a monotonic reading, and that one stripped (the last two only within a century of now; far
+// instants fall back to UTC / Local).  All representations of one p are the same instant but
+// different time.Time structs.
+func at(p string, rep int) time.Time {
+	n, ok := new(big.Int).SetString(p, 10)
+	if !ok {
+		panic("bad instant " + p)
+	}
+	sec, nsec := new(big.Int).DivMod(n, billion, new(big.Int))
+	if !sec.IsInt64() {
+		panic("instant out of range " + p)
+	}
+	t := time.Unix(sec.Int64(), nsec.Int64())
+	d := t.Sub(monoBase)
+	near := d > -100*365*24*time.Hour && d < 100*365*24*time.Hour
+	rep %= timeReps
+	if rep >= 4 && !near {
+		rep -= 4
+	}
+	switch rep {
 	case 0:
 		return t.UTC()
 	case 1:
@@ -298,26 +357,48 @@ func at(p, rep int) time.Time {
 	case 3:
 		return time.Unix(t.Unix(), int64(t.Nanosecond()))
 	case 4:
-		return monoBase.Add(t.Sub(monoBase))
+		return monoBase.Add(d)
 	default:
-		return monoBase.Add(t.Sub(monoBase)).Round(0)
+		return monoBase.Add(d).Round(0)
 	}
+}
+
+func tk(p string, t time.Time) okey { return okey{t: t, timed: true, label: p} }
+
+// nearInstant is the k-th instant of the dense set around one epoch (1.000000001 s apart).
+func nearInstant(k int) time.Time { return epoch.Add(time.Duration(k) * (time.Second + 1)) }
+
+// farInstants are legal time.Time values far from now: the zero time, years outside the range
+// UnixNano can represent (1678..2262), the exact ends of that range, and "never" sentinels.
+var farInstants = []time.Time{
+	{},
+	time.Date(1000, time.January, 1, 0, 0, 0, 0, time.UTC),
+	time.Date(1677, time.January, 1, 0, 0, 0, 0, time.UTC),
+	time.Unix(0, math.MinInt64).Add(-1),
+	time.Unix(0, math.MinInt64),
+	time.Unix(0, 0),
+	time.Unix(0, math.MaxInt64),
+	time.Unix(0, math.MaxInt64).Add(1),
+	time.Date(2263, time.January, 1, 0, 0, 0, 0, time.UTC),
+	time.Date(9999, time.December, 31, 23, 59, 59, 999999999, time.UTC),
+	time.Unix(1<<62, 0),
+	time.Unix(-(1 << 62), 0),
 }
 
 type realTPQ struct{ q timed.PriorityQueue[int] }
 
-func (q realTPQ) push(v, p, rep int) (func(), int) {
+func (q realTPQ) push(v int, p string, rep int) (func(), okey) {
 	t := at(p, rep)
 	q.q.Push(v, t)
 
-	return nil, int(t.UnixNano())
+	return nil, tk(p, t)
 }
 func (q realTPQ) peek() (int, bool) { return q.q.Peek() }
 func (q realTPQ) pop() (int, bool)  { return q.q.Pop() }
-func (q realTPQ) popUntil(p, rep int) ([]int, int) {
+func (q realTPQ) popUntil(p string, rep int) ([]int, okey) {
 	t := at(p, rep)
 
-	return q.q.PopUntil(t), int(t.UnixNano())
+	return q.q.PopUntil(t), tk(p, t)
 }
 func (q realTPQ) popAll() []int { return q.q.PopAll() }
 func (q realTPQ) size() int     { return q.q.Size() }
@@ -378,7 +459,7 @@ func (w *pqW) exec(r *hx.Run, f []string) (string, string) {
 	}()
 	switch f[0] {
 	case "push":
-		v, p, rep := atoi(f[1]), atoi(f[2]), 0
+		v, p, rep := atoi(f[1]), f[2], 0
 		if len(f) > 3 {
 			rep = atoi(f[3])
 		}
@@ -442,15 +523,15 @@ func (w *pqW) exec(r *hx.Run, f []string) (string, string) {
 		if len(f) > 2 {
 			rep = atoi(f[2])
 		}
-		vals, p := w.q.popUntil(atoi(f[1]), rep)
+		vals, p := w.q.popUntil(f[1], rep)
 		for _, it := range w.popped(r, "popuntil", vals) {
 			if w.ms.before(p, it.p) {
-				fail(r, w.name, "popuntil", "pop-until", fmt.Sprintf("PopUntil(%d) returned %d with priority %d", p, it.v, it.p))
+				fail(r, w.name, "popuntil", "pop-until", fmt.Sprintf("PopUntil(%v) returned %d with priority %v", p, it.v, it.p))
 			}
 		}
 		for _, it := range w.ms.live {
 			if !w.ms.before(p, it.p) {
-				fail(r, w.name, "popuntil", "pop-until", fmt.Sprintf("PopUntil(%d) left %d with priority %d behind", p, it.v, it.p))
+				fail(r, w.name, "popuntil", "pop-until", fmt.Sprintf("PopUntil(%v) left %d with priority %v behind", p, it.v, it.p))
 			}
 		}
 		if w.removedInner {
@@ -491,6 +572,24 @@ func genPQ(name string, rng *hx.Rng, n int) []string {
 	ops := []string{name + " new " + hx.Pick(rng, dirs)}
 	pushed := 0
 	np := rng.Range(2, 6)
+	// the pool of priorities of this history; bounds are drawn from the same pool (plus one beyond)
+	var pool []string
+	for k := -1; k < np; k++ {
+		if name == "tpq" {
+			pool = append(pool, instantString(nearInstant(k)))
+		} else {
+			pool = append(pool, strconv.Itoa(k))
+		}
+	}
+	if rng.Chance(1, 2) { // unusual but legal: far instants / extreme integers
+		for k := rng.Range(1, 4); k > 0; k-- {
+			if name == "tpq" {
+				pool = append(pool, instantString(hx.Pick(rng, farInstants)))
+			} else {
+				pool = append(pool, strconv.Itoa(hx.Pick(rng, []int{math.MinInt64, math.MinInt64 + 1, -1 << 31, 1 << 31, math.MaxInt64 - 1, math.MaxInt64})))
+			}
+		}
+	}
 	for i := 0; i < n; i++ {
 		var op string
 		x := rng.Intn(100)
@@ -500,7 +599,7 @@ func genPQ(name string, rng *hx.Rng, n int) []string {
 		switch {
 		case x < 45:
 			// values are unique (= the handle number) so that the answers identify the element
-			op = fmt.Sprintf("push %d %d", pushed, rng.Intn(np)-1)
+			op = fmt.Sprintf("push %d %s", pushed, hx.Pick(rng, pool[1:]))
 			if name == "tpq" { // the instant in one of its time.Time representations
 				op += fmt.Sprintf(" %d", rng.Intn(timeReps))
 			}
@@ -512,7 +611,7 @@ func genPQ(name string, rng *hx.Rng, n int) []string {
 		case x < 86:
 			op = "pop"
 		case x < 92:
-			op = fmt.Sprintf("popuntil %d", rng.Intn(np+1)-1)
+			op = fmt.Sprintf("popuntil %s", hx.Pick(rng, pool))
 			if name == "tpq" {
 				op += fmt.Sprintf(" %d", rng.Intn(timeReps))
 			}
